@@ -192,6 +192,7 @@ def run(repo: Repo, rep: Report, tier: str) -> None:
         check_generator(repo, rep, g)
 
     check_abort_wakes_reader(repo, rep, "reader-woken")
+    check_no_response_aborts(repo, rep, "failure-path")
     from ..delegate import delegate as _delegate24
     rep.rule("lock-owned", "the AE-wide lock the response generators log under is released only by the thread that holds it (C26's lock-released)")
     _delegate24(repo, rep, tier, "C26", ("lock-released",), "lock-owned", "another thread releases the lock a response generator holds while it logs an Identifier: the generator's own `with self.lock` exit raises RuntimeError out of next(responses) - the current and all later responses are lost")
@@ -480,3 +481,36 @@ def check_abort_wakes_reader(repo, rep, rule: str) -> None:
     v = qs[0].value
     unbounded = isinstance(v, ast.Call) and (dotted(v.func) or "").split(".")[-1] in ("Queue", "SimpleQueue", "LifoQueue") and not [a for a in v.args if not (isinstance(a, ast.Constant) and a.value in (0, None))] and not [k for k in v.keywords if k.arg == "maxsize" and not (isinstance(k.value, ast.Constant) and k.value.value in (0, None))]
     rep.check(unbounded, rule, "dimse.DIMSEServiceProvider.__init__", qs[0], f"`{norm(v)}`: the DIMSE message queue is bounded - the abort actions (and receive_primitive) put on it from the provider thread, which blocks in the middle of an action when the user has that many unprocessed messages: the state machine never reaches Sta1, EVT_CONN_CLOSE is never emitted and kill() waits for ever", mod=dm, node=qs[0])
+
+
+def check_no_response_aborts(repo, rep, rule: str) -> None:
+    """send_* gives up on a response only through _handle_no_response(). When no abort is already under way and
+    the association is still established it must abort - for the requestor and the acceptor alike: send_*() never
+    matches a response to its request's Message ID, so a late response to a request that was given up is taken for
+    the answer to the next one (a C-GET SCP would attribute every later sub-operation's outcome to its successor).
+    Evaluated (sa/minipy.py) for both roles and every state of the abort flags."""
+    from ..minipy import Interp, Obj, Raised, Unsupported
+
+    am = repo.mod("association")
+    fn = repo.func("association", "Association._handle_no_response")
+    fq = "association.Association._handle_no_response"
+    n = 0
+    for requestor in (True, False):
+        for aborted in (None, "a-abort", "a-p-abort"):
+            for established in (True, False):
+                calls = []
+                acse = Obj("ACSE", {"@is_aborted": lambda s_, kind=None, aborted=aborted: aborted is not None and (kind is None or kind == aborted)})
+                me = Obj("Association", {"acse": acse, "is_established": established, "is_requestor": requestor, "is_acceptor": not requestor, "mode": "requestor" if requestor else "acceptor", "@abort": lambda s_, calls=calls: calls.append("abort"), "is_aborted": False, "is_released": False, "@kill": lambda s_, calls=calls: calls.append("kill")})
+                try:
+                    Interp({}).call_function(fn, {"self": me})
+                except Unsupported as exc:
+                    rep.defer(f"{fq}: not evaluable with stand-ins ({exc})")
+                    return
+                except Raised as r:
+                    rep.fail(rule, fq, f"raises {r.kind}", "the common no-response path raises", mod=am, node=fn)
+                    return
+                n += 1
+                want = ["abort"] if aborted is None and established else []
+                inst = f"{'requestor' if requestor else 'acceptor'}, {'no abort pending' if aborted is None else aborted + ' pending'}, {'established' if established else 'not established'}"
+                rep.check(calls == want, rule, fq, f"[{inst}] -> {calls or 'nothing'}", f"a DIMSE timeout on an established association must abort it whatever the local role (expected {want or 'nothing'}): without the abort a late response to the abandoned request is consumed as the answer to the next request - send_*() does not match Message IDs - and e.g. a C-GET SCP files every later sub-operation under its predecessor's status", mod=am, node=fn)
+    rep.floor("_handle_no_response evaluations", n, 12)
